@@ -259,6 +259,10 @@ def ts(t):
         return f"{{ [K in {ts(t['keys'])}]{opt}: {ts(t['v'])} }}"
     if k == "typeof":
         return f"typeof {t['n']}"
+    if k == "enumref":
+        return t["n"]
+    if k == "enummember":
+        return f"{t['n']}.{t['m']}"
     if k == "param":
         return t["n"]
     if k == "raw":
